@@ -10,6 +10,8 @@ import contextlib
 import logging
 from dataclasses import dataclass
 
+import enum
+import typing
 import pyoak.config
 
 import zoo
@@ -25,6 +27,28 @@ class BytesLeaf(zoo.Expr):
 
 
 zoo.CHILD_FIELDS[BytesLeaf] = [("kids", True), ("opt", False)]
+
+
+class Vis(str, enum.Enum):
+    """an enum whose members ARE strings: str(member) is 'Vis.PUBLIC', the string payload is 'pub'"""
+    PUBLIC = "pub"
+    PRIVATE = "priv"
+
+
+class Marked(str):
+    """a str subclass with its own __str__"""
+    def __str__(self):
+        return "<" + str.__str__(self) + ">"
+
+
+@dataclass(frozen=True)
+class StrKinds(zoo.Expr):
+    vis: Vis = Vis.PUBLIC
+    anyv: typing.Any = None
+    plain: str = ""
+
+
+zoo.CHILD_FIELDS[StrKinds] = []
 
 
 def register_leaf_class(cls: type) -> None:
